@@ -1,5 +1,7 @@
 package main
 
+import "fmt"
+
 // S1, continued: the owning module calls the keeper again from inside its callbacks - it starts a paused
 // context, lowers a fee cap, and acts on a context other than the one the callback is about.
 
@@ -286,6 +288,32 @@ func ReactScenarios() []History {
 		eb(1), eb(1), eb(1),
 	)
 	add("amounts-at-the-top-of-the-integers", smallParams(), nil, ops...)
+
+	// a popular service: more bindings than a default page of the SDK's pagination holds (100), three owners,
+	// a second service whose name extends the first; the listings are observed at 99, 100, 101 and 104 bindings
+	ops = []Ev{{Name: "Define", Signer: "o1", Svc: "s"}, {Name: "Define", Signer: "o1", Svc: "s1"}}
+	for i := 0; i < 104; i++ {
+		owner := []string{"o1", "o2", "c1"}[i%3]
+		ops = append(ops, Ev{Name: "Bind", Signer: owner, Svc: "s", Prov: fmt.Sprintf("q%03d", i), Deposit: 10, DShape: "ok", Pr: pr(1), Qos: 1})
+		if i == 2 {
+			ops = append(ops, Ev{Name: "Bind", Signer: "o1", Svc: "s1", Prov: "q000", Deposit: 10, DShape: "ok", Pr: pr(1), Qos: 1})
+		}
+		if i == 98 || i == 99 || i == 100 {
+			ops = append(ops, Ev{Name: "Obs"})
+		}
+	}
+	add("a-popular-service", smallParams(), map[string]int64{"o1": 1000, "o2": 1000, "c1": 1000}, ops...)
+
+	// a call whose timeout is negative: stateless validation must refuse it (were it accepted, its batch
+	// would expire in a block that has ended)
+	ops = registry(map[string]int64{"p1": 5, "p2": 3})
+	ops = append(ops,
+		Ev{Name: "Call", Signer: "c1", Svc: "s1", Provs: both, Cap: 10, Timeout: -3},
+		Ev{Name: "Call", Signer: "c1", Svc: "s1", Provs: both, Cap: 10, Timeout: -1, Rep: true, Freq: 2, Total: 2},
+		Ev{Name: "Call", Signer: "c1", Svc: "s1", Provs: both, Cap: 10, Timeout: 2},
+		eb(1), eb(1), eb(1), eb(1), eb(1),
+	)
+	add("a-negative-timeout", smallParams(), nil, ops...)
 
 	return hs
 }
